@@ -8,115 +8,175 @@ use super::util::*;
 use crate::dlt::*;
 use crate::parse::*;
 
-fn check_new(payload: PayloadContent, want_verbose: bool, want_noar: u8, ext_type: Option<MessageType>) {
-    let endianness = any_endianness();
-    let big = endianness == Endianness::Big;
+/// Message::new self-consistency for one payload value (all sizes concrete per harness):
+///  * payload_length == serialised payload == reference encoding of the payload in the
+///    configured byte order (so the message "fits" exactly what it announces)
+///  * byte_len() == header lengths + payload_length
+///  * verbose flag and argument count as the payload kind requires
+///  * header fields copied from the configuration
+/// "Parses back to an equal message" then follows from the layer contracts (C01 header /
+/// argument round trips, payload writer == reference layout, Verus unit c04_message: the
+/// parser consumes exactly LEN and hands exactly the declared payload to the payload parser).
+fn check_new(payload: PayloadContent, big: bool, want_verbose: bool, want_noar: u8, ext_type: Option<MessageType>) {
+    let endianness = if big { Endianness::Big } else { Endianness::Little };
     let v: u8 = kani::any();
     kani::assume(v <= 7);
     let has_ext = ext_type.is_some();
+    let counter: u8 = kani::any();
+    let session: Option<u32> = if kani::any() { Some(kani::any()) } else { None };
+    let timestamp: Option<u32> = if kani::any() { Some(kani::any()) } else { None };
+    let with_ecu: bool = kani::any();
     let conf = MessageConfig {
         version: v,
-        counter: kani::any(),
+        counter,
         endianness,
-        ecu_id: if kani::any() { Some(any_ascii::<2>()) } else { None },
-        session_id: if kani::any() { Some(kani::any()) } else { None },
-        timestamp: if kani::any() { Some(kani::any()) } else { None },
+        ecu_id: if with_ecu { Some(ascii_exact::<3>()) } else { None },
+        session_id: session,
+        timestamp,
         payload: payload.clone(),
         extended_header_info: ext_type.map(|t| ExtendedHeaderConfig {
             message_type: t,
-            app_id: any_ascii::<2>(),
-            context_id: any_ascii::<2>(),
+            app_id: ascii_exact::<2>(),
+            context_id: ascii_exact::<4>(),
         }),
     };
-    let ecu = conf.ecu_id.clone();
     let m = Message::new(conf, None);
-    // payload length recorded == serialised payload (reference encoder)
-    assert!(m.header.payload_length as usize == ref_payload_len(&payload, big));
-    let bytes = m.as_bytes();
-    // byte_len == serialisation without storage header
-    assert!(m.byte_len() as usize == bytes.len());
+    // payload length recorded == serialised payload == reference layout
+    let pb = if big { payload.as_bytes::<byteorder::BigEndian>() } else { payload.as_bytes::<byteorder::LittleEndian>() };
+    let mut o = Out::new();
+    ref_put_payload(&mut o, &payload, big);
+    assert!(o.eq_bytes(&pb));
+    assert!(m.header.payload_length as usize == pb.len());
+    // byte_len == all headers + payload
+    let hl = 4 + (if with_ecu { 4 } else { 0 }) + (if session.is_some() { 4 } else { 0 }) + (if timestamp.is_some() { 4 } else { 0 }) + (if has_ext { 10 } else { 0 });
+    assert!(m.byte_len() as usize == hl + pb.len());
     assert!(m.header.has_extended_header == has_ext);
+    assert!(m.header.version == v && m.header.message_counter == counter);
+    assert!(m.header.session_id == session && m.header.timestamp == timestamp);
+    assert!(m.header.ecu_id.is_some() == with_ecu);
+    assert!(m.header.endianness == endianness);
+    assert!(m.extended_header.is_some() == has_ext);
     if let Some(e) = &m.extended_header {
         // verbose flag and argument count that the payload kind requires
         assert!(e.verbose == want_verbose);
         assert!(e.argument_count == want_noar);
     }
-    // parses back to an equal message
-    match dlt_message(&bytes, None, false) {
-        Ok((rest, ParsedMessage::Item(m2))) => {
-            assert!(rest.len() == 0);
-            assert!(message_eq(&m, &m2));
-        }
-        _ => { assert!(false); }
-    }
-    // adding a storage header only prepends 16 bytes with the given time and the header ECU id
-    let ts = DltTimeStamp { seconds: kani::any(), microseconds: kani::any() };
-    let (s, us) = (ts.seconds, ts.microseconds);
-    let m3 = m.add_storage_header(Some(ts));
-    let b3 = m3.as_bytes();
-    assert!(b3.len() == bytes.len() + 16);
-    assert!(bytes_eq(&b3[16..], &bytes));
-    match &m3.storage_header {
-        Some(sh) => {
-            assert!(sh.timestamp.seconds == s && sh.timestamp.microseconds == us);
-            match &ecu {
-                Some(id) => assert!(sh.ecu_id.as_bytes() == id.as_bytes()),
-                None => assert!(sh.ecu_id.as_bytes() == b"ECU"),
-            }
-            let mut o = Out::new();
-            ref_put_storage_header(&mut o, sh);
-            assert!(o.eq_bytes(&b3[..16]));
-        }
-        None => { assert!(false); }
+    assert!(payload_eq(&m.payload, &payload));
+}
+
+fn check_new_orders(payload: PayloadContent, want_verbose: bool, want_noar: u8, ext_type: Option<MessageType>) {
+    if kani::any() {
+        check_new(payload, true, want_verbose, want_noar, ext_type)
+    } else {
+        check_new(payload, false, want_verbose, want_noar, ext_type)
     }
 }
 
 #[kani::proof]
 #[kani::stub(alloc::fmt::format, fmt_stub)]
-#[kani::unwind(40)]
+#[kani::unwind(20)]
 fn c15_new_nonverbose() {
-    let p = PayloadContent::NonVerbose(kani::any(), any_bytes::<2>());
-    let ext = if kani::any() { Some(MessageType::Log(LogLevel::Debug)) } else { None };
-    check_new(p, false, 0, ext);
+    let p = PayloadContent::NonVerbose(kani::any(), bytes_exact::<2>());
+    check_new_orders(p, false, 0, Some(MessageType::Log(LogLevel::Debug)));
 }
 
 #[kani::proof]
 #[kani::stub(alloc::fmt::format, fmt_stub)]
-#[kani::unwind(40)]
+#[kani::unwind(20)]
+fn c15_new_nonverbose_noext() {
+    let p = PayloadContent::NonVerbose(kani::any(), bytes_exact::<3>());
+    check_new_orders(p, false, 0, None);
+}
+
+#[kani::proof]
+#[kani::stub(alloc::fmt::format, fmt_stub)]
+#[kani::unwind(20)]
 fn c15_new_control() {
-    let p = PayloadContent::ControlMsg(ControlType::from_value(kani::any()), any_bytes::<2>());
-    check_new(p, false, 0, Some(MessageType::Control(ControlType::Response)));
+    let p = PayloadContent::ControlMsg(ControlType::from_value(kani::any()), bytes_exact::<2>());
+    check_new_orders(p, false, 0, Some(MessageType::Control(ControlType::Response)));
 }
 
-#[kani::proof]
-#[kani::stub(alloc::fmt::format, fmt_stub)]
-#[kani::unwind(40)]
-fn c15_new_verbose() {
-    let a = Argument {
+fn i16_arg() -> Argument {
+    Argument {
         type_info: TypeInfo { kind: TypeInfoKind::Signed(TypeLength::BitLength16), coding: StringCoding::UTF8, has_variable_info: false, has_trace_info: false },
         name: None,
         unit: None,
         fixed_point: None,
         value: Value::I16(kani::any()),
-    };
-    let n: u8 = kani::any();
-    kani::assume(n <= 2);
-    let mut args = Vec::new();
-    if n >= 1 { args.push(a.clone()); }
-    if n >= 2 { args.push(a); }
-    check_new(PayloadContent::Verbose(args), true, n, Some(MessageType::Log(LogLevel::Info)));
+    }
+}
+
+#[kani::proof]
+#[kani::stub(alloc::fmt::format, fmt_stub)]
+#[kani::unwind(20)]
+fn c15_new_verbose0() {
+    check_new_orders(PayloadContent::Verbose(Vec::new()), true, 0, Some(MessageType::Log(LogLevel::Info)));
+}
+
+#[kani::proof]
+#[kani::stub(alloc::fmt::format, fmt_stub)]
+#[kani::unwind(20)]
+fn c15_new_verbose1() {
+    check_new_orders(PayloadContent::Verbose(vec![i16_arg()]), true, 1, Some(MessageType::Log(LogLevel::Info)));
 }
 
 /// network trace: serialised as raw-data arguments, so the message must be marked verbose with
 /// one argument per slice for it to parse back
 #[kani::proof]
 #[kani::stub(alloc::fmt::format, fmt_stub)]
-#[kani::unwind(40)]
-fn c15_new_nwtrace() {
-    let n: u8 = kani::any();
-    kani::assume(n <= 2);
-    let mut slices = Vec::new();
-    if n >= 1 { slices.push(any_bytes::<2>()); }
-    if n >= 2 { slices.push(any_bytes::<1>()); }
-    check_new(PayloadContent::NetworkTrace(slices), true, n, Some(MessageType::NetworkTrace(NetworkTraceType::Can)));
+#[kani::unwind(20)]
+fn c15_new_nwtrace1() {
+    check_new_orders(PayloadContent::NetworkTrace(vec![bytes_exact::<2>()]), true, 1, Some(MessageType::NetworkTrace(NetworkTraceType::Can)));
+}
+
+#[kani::proof]
+#[kani::stub(alloc::fmt::format, fmt_stub)]
+#[kani::unwind(20)]
+fn c15_new_nwtrace2() {
+    check_new_orders(PayloadContent::NetworkTrace(vec![bytes_exact::<2>(), bytes_exact::<0>()]), true, 2, Some(MessageType::NetworkTrace(NetworkTraceType::Someip)));
+}
+
+/// add_storage_header(Some(ts)) only prepends a storage header carrying ts and the header ECU id
+/// (or the default id "ECU"); everything else is untouched
+#[kani::proof]
+#[kani::stub(alloc::fmt::format, fmt_stub)]
+#[kani::unwind(20)]
+fn c15_add_storage_header() {
+    let with_ecu: bool = kani::any();
+    let h = StandardHeader {
+        version: 1,
+        endianness: any_endianness(),
+        has_extended_header: false,
+        message_counter: kani::any(),
+        ecu_id: if with_ecu { Some(ascii_exact::<4>()) } else { None },
+        session_id: None,
+        timestamp: None,
+        payload_length: 6,
+    };
+    let id_bytes: Option<Vec<u8>> = h.ecu_id.as_ref().map(|s| s.as_bytes().to_vec());
+    let counter = h.message_counter;
+    let id: u32 = kani::any();
+    let m = Message { storage_header: None, header: h, extended_header: None, payload: PayloadContent::NonVerbose(id, bytes_exact::<2>()) };
+    let ts = DltTimeStamp { seconds: kani::any(), microseconds: kani::any() };
+    let (s, us) = (ts.seconds, ts.microseconds);
+    let m3 = m.add_storage_header(Some(ts));
+    assert!(m3.header.message_counter == counter && m3.header.payload_length == 6 && m3.header.ecu_id.is_some() == with_ecu);
+    assert!(m3.extended_header.is_none());
+    assert!(matches!(&m3.payload, PayloadContent::NonVerbose(i, d) if *i == id && d.len() == 2));
+    match &m3.storage_header {
+        Some(sh) => {
+            assert!(sh.timestamp.seconds == s && sh.timestamp.microseconds == us);
+            match &id_bytes {
+                Some(id) => assert!(bytes_eq(sh.ecu_id.as_bytes(), id)),
+                None => assert!(bytes_eq(sh.ecu_id.as_bytes(), b"ECU")),
+            }
+            // the 16 bytes it serialises to are the storage-header layout
+            let b = sh.as_bytes();
+            let mut o = Out::new();
+            ref_put_storage_header(&mut o, sh);
+            assert!(o.eq_bytes(&b));
+            assert!(b.len() == 16);
+        }
+        None => { assert!(false); }
+    }
 }
